@@ -751,6 +751,24 @@ func traceEventName(con *Contract, full string) string {
 // havocModifies havocs the region denoted by a modifies clause, keeping everything else.
 func (vc *VC) havocModifies(env *SpecEnv, m *Clause, st *State) {
 	regs := vc.regionsOf(env, m.Expr)
+	if m.Guard != nil {
+		// conditional frame: havoc in a copy and keep the old heaps when the guard is false
+		g := vc.specAssumable(env, m.Guard.Expr)
+		tmp := st.clone()
+		for _, r := range regs {
+			vc.havocRegion(tmp, r)
+		}
+		for k, h := range tmp.heaps {
+			old, ok := st.heaps[k]
+			if !ok {
+				old = vc.implicitHeap(st, k)
+			}
+			if h != old {
+				st.heaps[k] = Ite(g, h, old)
+			}
+		}
+		return
+	}
 	for _, r := range regs {
 		vc.havocRegion(st, r)
 	}
@@ -765,6 +783,7 @@ type region struct {
 	global *types.Var
 	wholeMap types.Type
 	mapRef *Term
+	guard  *Term
 }
 
 func (vc *VC) regionsOf(env *SpecEnv, e ast.Expr) []region {
